@@ -19,7 +19,7 @@ CLASSES = {
 
 
 def plan(tier, seed):
-    k = 30 if tier == "quick" else 600
+    k = 64 if tier == "quick" else 600
     shards = [{"kind": "proj", "cls": c, "seed": seed, "shard": i, "n": 100} for c in CLASSES for i in range(k)]
     shards += [{"kind": "case", "seed": seed, "shard": i, "n": 150} for i in range(4 if tier == "quick" else 100)]
     return shards
